@@ -659,6 +659,14 @@ char *macros_expand_params(
       return nullptr;
     }
 
+    if (ptr >= (int)sizeof(params) - 3 ||
+        count >= (int)(sizeof(params_ptr) / sizeof(params_ptr[0])) - 1)
+    {
+      print_error(asm_context, "Macro parameters too long");
+      asm_context->error = 1;
+      return nullptr;
+    }
+
     if (ch == ',' && !in_string && !in_ticks && open_parens == 0)
     {
       params[ptr++] = 0;
